@@ -182,6 +182,22 @@ class Core:
             arr, n = seqs.materialize(v, facts, ez)
             for f in facts:
                 st.assume(f)
+            if k == "list" and sort.args[0].kind == "rec" and sort.args[0].name == "Segment" and len(v.pieces) > 1 and hasattr(self, "segcells"):
+                # sum-congruence instances for the cell width of a line of segments (lemma; induction on the length)
+                uf, measure = self.segcells()
+                off = z3.IntVal(0)
+                for p_ in v.pieces:
+                    if p_.kind == "view":
+                        pc_ = uf(p_.a, p_.hi) - uf(p_.a, p_.lo)
+                    elif p_.kind == "rep":
+                        pc_ = p_.hi * measure(p_.a)
+                    else:
+                        pc_ = z3.IntVal(0)
+                        for it_ in p_.items:
+                            pc_ = pc_ + measure(it_)
+                    nxt = z3.simplify(off + p_.length())
+                    st.assume(uf(arr, nxt) - uf(arr, off) == pc_)
+                    off = nxt
             return self.U.z3sort(sort).mk(arr, n)
         if k == "tuple":
             if isinstance(v, VTuple):
